@@ -300,9 +300,7 @@ func negative(tokens []Token, baseUrl string, out *csDescriptors) error {
 	}
 
 	var values []pr.NamedString
-	for len(tokens) != 0 {
-		var token Token
-		token, tokens = tokens[len(tokens)-1], tokens[:len(tokens)-1]
+	for _, token := range tokens { // prefix first, then suffix
 		if p, ok := stringIdentOrUrl(token, baseUrl); ok {
 			values = append(values, p)
 		}
@@ -374,7 +372,11 @@ func range_(tokens []Token) ([2]int, error) {
 			switch token := token.(type) {
 			case pa.Ident:
 				if token.Value == "infinite" {
-					values[i] = math.MaxInt32
+					if i == 0 { // lower bound: negative infinity
+						values[i] = math.MinInt32
+					} else {
+						values[i] = math.MaxInt32
+					}
 					continue
 				}
 			case pa.Number:
